@@ -239,6 +239,21 @@ CLAIMS = {
             "hash orders are sampled by launching processes (the evidence reports how many distinct orders were observed); "
             "one project family",
             "DESIGN.md section 3 C13"),
+    "C11": ("exploration",
+            "TLA+ generator model of rule documents (RuleDocGen.tla: fields x value classes, pairwise deviations) enumerated "
+            "by TLC; every generated document offered to the real CLI in six roles in isolated children under timeout",
+            "The property is about the absence of crashes of the real process, so nothing can 'hold' in a model: the "
+            "specification contributes the input space. RuleDocGen.tla lists 16 fields with 4-12 value classes each "
+            "(wrong types, empty strings, lone/multi-byte sigils, extreme numbers, invalid regexes and globs, unknown "
+            "kinds/fields/languages, duplicate ids, self/mutual/relational/ofRule cycles, YAML anchors, tabs, 3000-deep "
+            "nesting ...); TLC enumerates every document with at most two non-default classes (3271). Each is rendered "
+            "to YAML and run as rule file (scan over 3 texts, and -U), as inline rules with --stdin, inside a project "
+            "(ruleDirs + utilDirs + sg test) and as sgconfig.yml, each in its own sgv child under a 15 s timeout; panic "
+            "(101 / 'panicked at'), fatal signal and hang are violations, judged by Trace_C11. A seeded byte-mutation "
+            "stage (truncate, insert junk, duplicate, strip quotes) follows and is reported separately.",
+            "dev-profile build (debug assertions + overflow checks); 'every byte string' is only sampled; three fixed "
+            "source texts",
+            "DESIGN.md section 3 C11"),
 }
 
 NOT_YET = "check not built yet in this round (construction order in DESIGN.md section 9); not claimed until it runs"
